@@ -214,6 +214,10 @@ func (v *PCView) Implies(b *ssa.BasicBlock, r *Formula) (bool, []string) {
 	pc := v.Block(b)
 	rt := v.tableOf(r)
 	ok := true
+	if pc.empty() && v.from == nil && len(v.cut) == 0 {
+		// no path reaches the construct: a vacuous "holds" would hide dead code behind a guard that can never pass
+		return false, []string{"<unreachable: no feasible path to this construct>"}
+	}
 	for i := range pc {
 		if pc[i]&^rt[i] != 0 {
 			ok = false
@@ -253,7 +257,14 @@ func (v *PCView) Literals(b *ssa.BasicBlock) []string {
 
 // Implies is the convenience form: does every path to block b satisfy r?
 func (fi *FuncInfo) Implies(b *ssa.BasicBlock, r *Formula) (bool, []string) {
-	return fi.View(r).Implies(b, r)
+	ok, have := fi.View(r).Implies(b, r)
+	if !ok && !fi.deep {
+		// second chance: look through small helper predicates called in the guards
+		if ok2, have2 := fi.Deep().View(r).Implies(b, r); ok2 {
+			return true, have2
+		}
+	}
+	return ok, have
 }
 
 // ImpliesAt is Implies for the block of an instruction.
@@ -301,7 +312,13 @@ func (v *PCView) Reachable(b *ssa.BasicBlock) bool { return !v.Block(b).empty() 
 // ImpliesFrom: does every path from block 'from' to block 'to' satisfy r? (vacuously true when none)
 func (fi *FuncInfo) ImpliesFrom(from, to *ssa.BasicBlock, r *Formula) (bool, []string) {
 	v := fi.ViewOpt(r, from)
-	return v.Implies(to, r)
+	ok, have := v.Implies(to, r)
+	if !ok && !fi.deep {
+		if ok2, have2 := fi.Deep().ViewOpt(r, from).Implies(to, r); ok2 {
+			return true, have2
+		}
+	}
+	return ok, have
 }
 
 // MustPass reports whether every CFG path (back edges included) from instruction 'from' (exclusive)
